@@ -35,11 +35,14 @@ def requests(ctx):
                                first_line=b"", comment_p=0.15)
         if len(body) > 700:
             body = body[:700]
-        opts = rng.choice(["st", "st", "rd", "mt:3:64"]) if n % 6 else "mt:2:32"
+        # multi-threaded loads also with chunks shorter than a line (a worker whose whole chunk lies inside one line)
+        opts = rng.choice(["st", "st", "rd", "mt:3:64"]) if n % 6 else rng.choice(["mt:2:32", "mt:8:16", "mt:6:8"])
         head = vcdgen.request(opts, vars_, body).split(" ")
         base = " ".join(["vcdcut"] + head[1:])
         for k in range(len(body) + 1):
-            lb = 1 if (ld and opts in ("st", "rd") and (k == 0 or body[k - 1:k] == b"\n")) else 0
+            # at line-boundary cuts the loaded waveform must be exactly what the lines present denote — for multi-threaded loads
+            # too (the driver classifies unsafe hand-overs of the prefix / the complete body as FMT)
+            lb = 1 if (ld and (k == 0 or body[k - 1:k] == b"\n")) else 0
             rq.append(f"{base} {k} {lb}")
     return rq
 
